@@ -262,11 +262,16 @@ def check_trim_curve(curve, parbox, **kwargs):
     # Keyword arguments
     tol = kwargs.get('tol', 10e-8)
 
+    # Distances and cross products are measured in the parametric space of the surface: the tolerances are relative to its size
+    size = max(abs(parbox[1][0] - parbox[0][0]), abs(parbox[2][1] - parbox[1][1]))
+    tol_ccw = tol * size * size
+    tol *= size
+
     # First, check if the curve is closed
     dist = linalg.point_distance(curve.evalpts[0], curve.evalpts[-1])
     if dist <= tol:
         # Curve is closed
-        return detect_sense(curve, tol), []
+        return detect_sense(curve, tol_ccw), []
     else:
         # Define start and end points of the trim curve
         pt_start = curve.evalpts[0]
@@ -299,11 +304,11 @@ def check_trim_curve(curve, parbox, **kwargs):
                 # Find sense
                 tmp_sense = 0
                 for pti in range(1, num_pts - 1):
-                    tmp_sense = detect_ccw(pts[pti - 1], pts[pti], pts[pti + 1], tol)
+                    tmp_sense = detect_ccw(pts[pti - 1], pts[pti], pts[pti + 1], tol_ccw)
                     if tmp_sense != 0:
                         break
                 if tmp_sense == 0:
-                    tmp_sense2 = detect_ccw(pts[int(num_pts/3)], pts[int(2*num_pts/3)], pts[-int(num_pts/3)], tol)
+                    tmp_sense2 = detect_ccw(pts[int(num_pts/3)], pts[int(2*num_pts/3)], pts[-int(num_pts/3)], tol_ccw)
                     if tmp_sense2 != 0:
                         tmp_sense = -tmp_sense2
                     else:
